@@ -31,6 +31,16 @@ def guarded(f, *a):
         signal.setitimer(signal.ITIMER_REAL, 0)
 
 
+def unicode_digit_mutations(g, hl):
+    """value-preserving Unicode decimal digits at every digit position of the header and block section"""
+    out = []
+    for p in range(0, min(hl + 2, len(g))):
+        if g[p].isdigit():
+            for base in (0xFF10, 0x0660, 0x1D7D8):
+                out.append(g[:p] + chr(base + int(g[p])) + g[p + 1:])
+    return out
+
+
 def mutations(rng, g, hl):
     n = len(g)
     out = []
@@ -72,7 +82,7 @@ def run(ctx):
     unwrap_items.append(LEGACY_WITNESS)
     for v in "ABCD":
         for _ in range(ctx.n(2, 10)):
-            c = t.gen_case(rng, version=v, profile=rng.choice(["none", "few", "boundary"]), keylen=rng.choice([0, 8, 16, 24]))
+            c = t.gen_case(rng, version=v, profile=rng.choice(["none", "few", "boundary", "boundary"]), keylen=rng.choice([0, 8, 16, 24]))
             h = t.impl_header(c)
             try:
                 g = tr31.wrap(c["kbpk"], h, c["key"], c["mask"])
@@ -82,6 +92,8 @@ def run(ctx):
             muts = mutations(rng, g, hl)
             if not ctx.thorough:
                 muts = rng.sample(muts, min(len(muts), 90))
+            ud = unicode_digit_mutations(g, hl)
+            muts += ud if (ctx.thorough or len(ud) < 60) else rng.sample(ud, 60)
             for s in muts:
                 kb = c["kbpk"] if rng.random() < 0.8 else rng.randbytes(rng.randrange(0, 41))
                 unwrap_items.append((kb, s))
@@ -89,6 +101,28 @@ def run(ctx):
                     load_items.append(s)
                 if rng.random() < 0.15:
                     wrap_items.append((kb, s[:hl], rng.randbytes(rng.choice([0, 8, 16, 5000])), rng.choice([None, -1, 0, 40, 6000])))
+    # constructed from scratch: header + arbitrary blocks (odd and even lengths, short and extended form, no pad block)
+    # + a hex tail that brings the total to a block multiple, with a correct length field
+    for _ in range(ctx.n(250, 2500)):
+        v = rng.choice("ABCD")
+        bs = t.BS[v]
+        nb = rng.randrange(0, 4)
+        body = ""
+        for _ in range(nb):
+            data = t.rstr(rng, rng.choice([0, 1, 2, 3, 4, 5, 7, 8, 251, 252, 300]), t.PRINT)
+            bid = t.rstr(rng, 2, t.ALNUM)
+            if rng.random() < 0.25 or len(data) + 4 > 255:
+                ll = rng.choice([1, 2, 2, 3])
+                body += bid + "00" + "%02X" % ll + ("%0*X" % (2 * ll, len(data) + 6 + 2 * ll))[-2 * ll:] + data
+            else:
+                body += bid + "%02X" % (len(data) + 4) + data
+        hdr = v + "0000" + t.rstr(rng, 7, t.ALNUM) + "%02d" % nb + "00" + body
+        total = len(hdr) + rng.choice([2 * t.MACLEN[v], 2 * t.MACLEN[v] + 2 * bs, 2 * t.MACLEN[v] + 4 * bs, 8, 2])
+        total += (-total) % bs
+        tail_alpha = rng.choice(["0123456789ABCDEF", "0123456789abcdef", "0123456789ABCDEF "])
+        s_ = hdr + t.rstr(rng, max(0, total - len(hdr)), tail_alpha)
+        s_ = fix(s_)
+        unwrap_items.append((rng.randbytes(rng.choice(t.KBPK_SIZES[v])), s_))
     # every KBPK length 0..40 against valid blocks of each version
     for v in "ABCD":
         c = t.gen_case(rng, version=v, profile="few", keylen=16, mask=None)
